@@ -346,6 +346,9 @@ func runMachines(c MCase) (pbt.Result, error) {
 			log = append(log, fmt.Sprintf("#%d machine %d loses its local blobs (target results stay) and its build products", i, st.Machine%2))
 			res.NonTrivial = true
 			res.Classes = append(res.Classes, "local-blobs-lost")
+		case "wipe-outputs":
+			machines[st.Machine%2].WipeOutputs(w)
+			log = append(log, fmt.Sprintf("#%d the build products in the workspace are removed", i))
 		case "remote-lose":
 			keys := srv.Keys()
 			var cas []string
@@ -510,7 +513,20 @@ func TestMachines(t *testing.T) {
 			}
 			n := rapid.IntRange(2, 7).Draw(t, "nsteps")
 			for i := 0; i < n; i++ {
-				k := rapid.SampledFrom([]string{"build", "build", "build", "edit", "wipe-local", "remote-lose", "lose-local-blobs", "cross-restore-with-truncation"}).Draw(t, "kind")
+				k := rapid.SampledFrom([]string{"build", "build", "build", "edit", "wipe-local", "remote-lose", "lose-local-blobs", "cross-restore-with-truncation", "offline-then-online"}).Draw(t, "kind")
+				if k == "offline-then-online" {
+					// a machine fills its local cache with the remote switched off, then builds with the remote on: what it
+					// restores comes from blobs the remote has never seen, what it executes next to that (after an edit) may
+					// produce some of the same bytes, and everything it publishes must still be complete in the remote store
+					m := rapid.IntRange(0, 1).Draw(t, "machine")
+					c.Steps = append(c.Steps, MStep{Kind: "build", Machine: m},
+						MStep{Kind: "edit", T: rapid.IntRange(0, 7).Draw(t, "t"), F: rapid.IntRange(0, 7).Draw(t, "f"), V: rapid.IntRange(0, 7).Draw(t, "v")})
+					if rapid.IntRange(0, 3).Draw(t, "wipe") > 0 {
+						c.Steps = append(c.Steps, MStep{Kind: "wipe-outputs", Machine: m})
+					}
+					c.Steps = append(c.Steps, MStep{Kind: "build", Machine: m, Remote: true})
+					continue
+				}
 				if k == "cross-restore-with-truncation" {
 					// machine A publishes, machine B (empty local cache) restores while the n-th download breaks off half way
 					c.Steps = append(c.Steps, MStep{Kind: "build", Machine: 0, Remote: true}, MStep{Kind: "wipe-local", Machine: 1},
